@@ -46,7 +46,7 @@ def run_one(m, build):
             out = ANSI.sub('', r.stdout + r.stderr)
             if r.returncode != 0 or 'Failed    0 |' not in out:
                 return 'NOBUILD', 'mutant does not build or fails the suite'
-        env = dict(os.environ, CV_REPO=d, CV_SELFTEST='1')
+        env = dict(os.environ, CV_REPO=d, CV_SELFTEST='1', CV_EVIDENCE_DIR=os.path.join(d, '_evidence'))
         r = subprocess.run([os.path.join(VERIF, 'check'), m['prop'], '--tier', 'quick'], capture_output=True, text=True, env=env, cwd=VERIF, timeout=600)
         out = r.stdout
         if m.get('neutral'):
@@ -62,24 +62,15 @@ def main():
     args = [a for a in sys.argv[1:] if not a.startswith('--')]
     build = '--build' in sys.argv
     muts = [m for m in load_mutants() if not args or m['prop'] in args or m['id'] in args]
-    # evidence files are rewritten by the runs below: keep the real ones
-    evdir = os.path.join(VERIF, 'evidence')
-    bak = tempfile.mkdtemp(prefix='cvev_')
-    for f in os.listdir(evdir):
-        if f.endswith('.json'):
-            shutil.copy(os.path.join(evdir, f), bak)
     bad = 0
-    try:
-        for m in muts:
-            st, info = run_one(m, build)
+    results = []
+    from concurrent.futures import ThreadPoolExecutor
+    with ThreadPoolExecutor(max_workers=8) as ex:
+        for m, (st, info) in zip(muts, ex.map(lambda mm: run_one(mm, build), muts)):
             print('%-11s %-4s %-34s %s' % (st, m['prop'], m['id'], info if st != 'OK' else str(info)[:110]))
+            results.append((m['id'], st))
             if st not in ('OK',):
                 bad += 1
-    finally:
-        for f in os.listdir(bak):
-            shutil.copy(os.path.join(bak, f), evdir)
-        shutil.rmtree(bak, ignore_errors=True)
-        shutil.rmtree(os.path.join(evdir, 'replay'), ignore_errors=True)
     print('%d mutants, %d not OK' % (len(muts), bad))
     return 1 if bad else 0
 
